@@ -112,7 +112,7 @@ class Gen:
         base_w = {
             "compile_str": 5.0, "compile_callable": 1.5, "compile_defs": 2.5, "compile_param": 1.2, "param_defs": 1.0,
             "to_logicfun": 0.8, "bind": 3.0, "oraclize": 2.0, "algo": 3.0, "secret_oracle": 0.4,
-            "export": 2.0, "decompile": 1.0, "truth_table": 1.5, "header": 0.3, "repr": 0.3, "again": 1.5, "forget": 0.8, "canary": 1.2, "variant": 0.8, "recompile": 0.6, "decode": 0.5, "custom": 0.35, "param_churn": 0.5, "bind_siblings": 0.6,
+            "export": 2.0, "decompile": 1.0, "truth_table": 1.5, "header": 0.3, "repr": 0.3, "again": 1.5, "forget": 0.8, "canary": 1.2, "variant": 0.8, "recompile": 0.6, "decode": 0.5, "custom": 0.35, "param_churn": 0.5, "bind_siblings": 0.6, "compose": 1.2,
         }
         # swarm: every run disables / boosts a random subset of op kinds
         self.w = {k: v * r.choice([0, 0.5, 1, 1, 2, 3]) for k, v in sorted(base_w.items())}
@@ -469,6 +469,25 @@ class Gen:
         self.add("export", {"target": e["id"], "fw": fw, "mode": r.choice(["circuit", "gate"])}, [e["id"]], s, "none")
         return True
 
+    def b_compose(self, s):
+        """the compiled circuit of a function / algorithm used as an OPERAND of the composition operators, and the
+        result then mutated like any circuit of the caller's ("composed" in the statement): the operand must stay as it was"""
+        r = self.r
+        c = self.cands(self.circ_holder())
+        if not c:
+            return False
+        e = self.pick(c, s)
+        how = r.choice(["append_wider", "iadd_host", "add", "repeat", "copy", "copy_vanilla"])
+        a = {"target": e["id"], "how": how, "pseed": r.randrange(1 << 30), "extra": r.randint(0, 2), "n": r.randint(2, 3),
+             "mut": [r.choice(["x", "add_qubit", "cx", "barrier", "ri", "h"]) for _ in range(r.randint(1, 4))]}
+        uses = [e["id"]]
+        if how == "add":
+            e2 = self.pick(c, s)
+            a["other"] = e2["id"]
+            uses.append(e2["id"])
+        self.add("compose", a, uses, s, "none")
+        return True
+
     def b_decompile(self, s):
         c = self.cands(self.circ_holder())
         if not c:
@@ -702,7 +721,7 @@ class Gen:
             if self.arm == "interrupt" and len(self.ops) > n_before and len(self.planned_interrupts) < 3:
                 last = self.ops[-1]
                 # rarer op kinds are interrupted with a higher probability, so that every kind gets its share
-                p_int = {"compile_str": 0.06, "compile_callable": 0.15, "bind": 0.3, "oraclize": 0.2, "algo": 0.2, "truth_table": 0.3, "decompile": 0.45, "export": 0.25, "recompile": 0.3}.get(last["kind"], 0)
+                p_int = {"compile_str": 0.06, "compile_callable": 0.15, "bind": 0.3, "oraclize": 0.2, "algo": 0.2, "truth_table": 0.3, "decompile": 0.45, "export": 0.25, "recompile": 0.3, "compose": 0.3}.get(last["kind"], 0)
                 if r.random() < p_int:
                     # this op will be interrupted (Ctrl-C at a seeded library line): nothing may use its
                     # result; half of the time the user simply runs the same thing again right away
@@ -713,7 +732,7 @@ class Gen:
                     self.pool = [e for e in self.pool if e["id"] != last["id"]]
         if self.arm == "interrupt" and not self.planned_interrupts:
             used = {u for o in self.ops for u in o["uses"]}
-            leaf = [o["id"] for o in self.ops if o["id"] not in used and o["kind"] in ("compile_str", "compile_callable", "bind", "oraclize", "algo", "truth_table", "decompile", "export")]
+            leaf = [o["id"] for o in self.ops if o["id"] not in used and o["kind"] in ("compile_str", "compile_callable", "bind", "oraclize", "algo", "truth_table", "decompile", "export", "compose")]
             if leaf:
                 k = r.choice(leaf)
                 self.planned_interrupts.append({"op": k, "kind": "interrupt", "frac": round(r.random(), 6)})
@@ -747,7 +766,7 @@ class Gen:
             return out
         nf = r.randint(1, 4)
         ids = [o["id"] for o in self.ops]
-        heavy = [o["id"] for o in self.ops if o["kind"] in ("compile_str", "compile_callable", "bind", "oraclize", "algo", "truth_table", "decompile", "export", "recompile")]
+        heavy = [o["id"] for o in self.ops if o["kind"] in ("compile_str", "compile_callable", "bind", "oraclize", "algo", "truth_table", "decompile", "export", "recompile", "compose")]
         inter = [i for i in self.interesting if i < len(self.ops)]
         for j in range(nf):
             if inter and r.random() < 0.5:
@@ -1048,6 +1067,48 @@ def do_op(op, objs, tmpdir):
         o = objs[a["target"]]
         res = o.export(a["fw"]) if a["mode"] == "circuit" else o.gate(a["fw"])
         return F.fp_export(res, a["fw"])
+    if k == "compose":
+        import random as _random
+
+        import fingerprint as F
+        from qlasskit.qcircuit import QCircuit
+
+        c1 = objs[a["target"]].circuit()
+        rr = _random.Random(a["pseed"])
+        how = a["how"]
+        if how == "append_wider":
+            host = QCircuit(c1.num_qubits + a["extra"])
+            perm = rr.sample(range(host.num_qubits), c1.num_qubits)
+            host.h(perm[0])
+            host.append_circuit(c1, perm)
+        elif how == "iadd_host":
+            host = QCircuit(c1.num_qubits + a["extra"])
+            host += c1
+            host += c1
+        elif how == "add":
+            c2 = objs[a["other"]].circuit()
+            big, small = (c1, c2) if c1.num_qubits >= c2.num_qubits else (c2, c1)
+            host = big + small
+        elif how == "repeat":
+            host = c1.repeat(a["n"])
+        elif how == "copy":
+            host = c1.copy()
+        else:
+            host = c1.copy(True)
+        built = F.fp_circuit(host)
+        for m in a["mut"]:  # the result is the caller's own circuit now
+            if m in ("x", "h"):
+                getattr(host, m)(rr.randrange(host.num_qubits))
+            elif m == "add_qubit":
+                host.add_qubit("zz_%d" % host.num_qubits)
+            elif m == "cx" and host.num_qubits > 1:
+                q = rr.sample(range(host.num_qubits), 2)
+                host.cx(q[0], q[1])
+            elif m == "barrier":
+                host.barrier()
+            elif m == "ri" and hasattr(host, "remove_identities"):
+                host.remove_identities()
+        return {"kind": "composed", "built": built, "after": F.fp_circuit(host)}
     if k == "decompile":
         from qlasskit.decompiler import Decompiler
 
@@ -1099,14 +1160,16 @@ def fp_result(op, res):
 def role_of(op, victim):
     a = op["a"]
     if a.get("target") == victim:
-        return {"algo": "blackbox", "oraclize": "oracle-source", "bind": "unbound", "export": "exported", "decompile": "decompiled", "to_logicfun": "converted", "recompile": "recompiled"}.get(op["kind"], "target")
+        return {"algo": "blackbox", "oraclize": "oracle-source", "bind": "unbound", "export": "exported", "compose": "operand", "decompile": "decompiled", "to_logicfun": "converted", "recompile": "recompiled"}.get(op["kind"], "target")
     if victim in a.get("defs", []):
         return "def"
+    if op["kind"] == "compose" and a.get("other") == victim:
+        return "operand"
     return "bystander"
 
 
 STATIC_LINES = {"decode": 60, "recompile": 3000, "compile_str": 6000, "compile_callable": 6000, "bind": 5000, "oraclize": 5000, "algo": 300, "secret_oracle": 5000,
-                "export": 200, "decompile": 300, "truth_table": 800, "header": 20, "repr": 30, "to_logicfun": 10, "forget": 1}
+                "export": 200, "compose": 300, "decompile": 300, "truth_table": 800, "header": 20, "repr": 30, "to_logicfun": 10, "forget": 1}
 
 
 class Estimator:
@@ -1698,7 +1761,7 @@ def crosscheck_jobs(plans, count):
 
 RULE = (
     "history = seeded sequence of public-API operations (compile from string/callable, defs=, to_logicfun, bind, oraclize, "
-    "Grover/DeutschJozsa/Simon/BernsteinVazirani, secret_oracle, export, decompile, truth_table, header, repr, again) over a pool of "
+    "Grover/DeutschJozsa/Simon/BernsteinVazirani, secret_oracle, export, decompile, compose (circuit as operand of append/+/+=/repeat/copy), truth_table, header, repr, again) over a pool of "
     "corpus/grammar/renamed programs, with seeded faults (reject / sympy-cache flush / gc / interrupt at the k-th library source line). "
     "non-trivial = contains a dependent pair: an operand used by two ops, a name compiled with two bodies, an op re-issued (again), "
     "an op after a rejection, or a fault that fired inside an op. distinct = by sequence of (op kind, class, operand distances, entry point) "
